@@ -239,7 +239,7 @@ def validate_runs(items, invariants=("CleanFinal", "RerunRestores", "NoSharedWri
         consts = dict(NIn=cfg.nin, NOut=cfg.nout, Mode=cfg.mode, Overwrite=bool(cfg.overwrite), PrevParts=getattr(run, "prev_parts", 0) if cfg.prev else 0,
                       MaxFaults=injected, RetryMax=RETRY["stop_max_attempt_number"], FixEmptyPlaceholder=True, AllowRerun=rerun_run is not None)
         res = run_tlc("Trace_PackFS", cfg=dict(spec="TSpec", constants=consts, invariants=list(invariants) + ["NotAccepted"], constraints=["Progress"],
-                                               postcondition="PrintProgress"), workers=1, env={"TRACE_FILE": path}, timeout=600, name=f"tr{idx}", dfs=True)
+                                               postcondition="PrintProgress"), workers=1, env={"TRACE_FILE": path}, timeout=3000, name=f"tr{idx}", dfs=True)
         m = re.findall(r'"PROGRESS", (\d+)', res.out)
         progress = int(m[-1]) if m else -1
         if "NotAccepted" in res.violated:
